@@ -1,6 +1,6 @@
 """Mutation catalogue for C10 (DESIGN.md 5.10 / 5.3 "must detect").  Not part of quick/thorough.
 
-    cd /verif && /venv/bin/python -m harness.c10_mutants [--tier quick] [NAME ...]
+    cd /verif && /venv/bin/python -m harness.c10_mutants [--tier quick] [--part compiled] [NAME ...]
 
 For every mutant: copy /repo/ethosu to a scratch directory outside /repo and /verif, apply ONE textual change,
 run `./check C10` with VERIF_REPO pointing at the copy, compare the violation keys with those of the unchanged
@@ -52,6 +52,9 @@ MUTS = {
 }
 
 
+PART = None       # "compiled": run only the compiled-stream part of the check (C10_PART=compiled)
+
+
 def run_one(name, tier):
     dst = scratch("c10mut")
     try:
@@ -64,7 +67,7 @@ def run_one(name, tier):
                 return {"mutant": name, "rc": None, "keys": [], "tail": "mutation does not apply (%d matches)" % s.count(old)}
             open(p, "w").write(s.replace(old, new))
         before = set(os.listdir(REPLAY)) if os.path.isdir(REPLAY) else set()
-        r = subprocess.run([os.path.join(VERIF, "check"), "C10", "--tier", tier], cwd=VERIF, env=dict(os.environ, VERIF_REPO=dst),
+        r = subprocess.run([os.path.join(VERIF, "check"), "C10", "--tier", tier], cwd=VERIF, env=dict(os.environ, VERIF_REPO=dst, **({"C10_PART": PART} if PART else {})),
                            capture_output=True, text=True)
         out = r.stdout + r.stderr
         keys = []
@@ -81,7 +84,11 @@ def run_one(name, tier):
 
 
 def main(argv):
+    global PART
     tier = "quick"
+    if "--part" in argv:
+        PART = argv[argv.index("--part") + 1]
+        argv = [a for a in argv if a not in ("--part", PART)]
     if "--tier" in argv:
         tier = argv[argv.index("--tier") + 1]
         argv = [a for a in argv if a not in ("--tier", tier)]
